@@ -33,9 +33,49 @@ def driveC14 (args : List String) : String :=
     | _, _, _ => "bad-op"
   | _ => "bad-op"
 
+def showParsed : Timeout.Parsed → String
+  | .noDeadline => "none"
+  | .deadline ns => s!"dur {ns}"
+  | .panic => "panic"
+
+/-- C09. `parseobs <hex> none|crash|<lo> <hi>`: the observation is on the line; answer `accept`
+    iff the model's outcome is the observed one (deadline within the clock sandwich). -/
+def driveC09 (args : List String) : String :=
+  match args with
+  | ["parse", h] => match hexArg h with
+    | some b => showParsed (Timeout.parseTimeout b)
+    | none => "bad-op"
+  | ["parseobs", h, "none"] => match hexArg h with
+    | some b => if Timeout.parseTimeout b == .noDeadline then "accept" else s!"reject model={showParsed (Timeout.parseTimeout b)}"
+    | none => "bad-op"
+  | ["parseobs", h, "crash"] => match hexArg h with
+    | some b => if Timeout.parseTimeout b == .panic then "accept" else s!"reject model={showParsed (Timeout.parseTimeout b)}"
+    | none => "bad-op"
+  | ["parseobs", h, lo, hi] => match hexArg h, lo.toInt?, hi.toInt? with
+    | some b, some lo, some hi =>
+      match Timeout.parseTimeout b with
+      | .deadline ns => if lo ≤ ns ∧ ns ≤ hi then "accept" else s!"reject model=dur {ns}"
+      | o => s!"reject model={showParsed o}"
+    | _, _, _ => "bad-op"
+  | ["encobs", lo, hi, h] => match lo.toInt?, hi.toInt?, hexArg h with
+    | some lo, some hi, some b =>
+      -- the header is monotone in the remaining duration: it must lie between the encodings of the ends
+      let hl := Timeout.clientHeader lo
+      let hh := Timeout.clientHeader hi
+      if b == hl || b == hh then "accept"
+      else match Prim.parseInt 64 b.dropLast, Prim.parseInt 64 hl.dropLast, Prim.parseInt 64 hh.dropLast with
+        | some x, some l, some u => if l ≤ x ∧ x ≤ u ∧ b.getLast? == hl.getLast? then "accept" else s!"reject model=[{showBytes hl},{showBytes hh}]"
+        | _, _, _ => s!"reject model=[{showBytes hl},{showBytes hh}]"
+    | _, _, _ => "bad-op"
+  | ["enc", "none"] => match Timeout.clientHeaderOpt none with
+    | none => "none"
+    | some _ => "present"
+  | _ => "bad-op"
+
 def dispatch (line : String) : String :=
   match (line.splitOn " ").filter (· ≠ "") with
   | "C14" :: rest => driveC14 rest
+  | "C09" :: rest => driveC09 rest
   | _ => "bad-op"
 
 partial def loop (h : IO.FS.Stream) (out : IO.FS.Stream) : IO Unit := do
